@@ -239,7 +239,7 @@ pub fn check(c: &Case) -> CheckResult {
         .class(if c.storage { "storage" } else { "no-storage" }))
 }
 
-fn strategy() -> impl Strategy<Value = Case> {
+pub fn strategy() -> impl Strategy<Value = Case> {
     any::<bool>().prop_flat_map(|storage| {
         let st = if storage { g::StorageMode::Always } else { g::StorageMode::Never };
         let m = g::message(g::MsgParams { storage: st, large: false, pool_ids: true, ..Default::default() }).prop_map(|mut m| {
